@@ -53,6 +53,10 @@ type Ctx struct {
 	capsHit     []string
 	NoWrite     bool
 	Silent      bool
+	// Forward*: set in worker subprocesses; reports are sent to the parent instead
+	Forward        func(sig, what string, replay interface{})
+	ForwardAdd     func(key string, n int)
+	ForwardHarness func(msg string)
 }
 
 // Dummy returns a context that swallows reports (used when a path is re-built only
@@ -134,6 +138,10 @@ func (c *Ctx) Sample(s interface{}) {
 }
 
 func (c *Ctx) Add(key string, n int) {
+	if c.ForwardAdd != nil {
+		c.ForwardAdd(key, n)
+		return
+	}
 	c.mu.Lock()
 	defer c.mu.Unlock()
 	cur, _ := c.Cov[key].(int)
@@ -154,6 +162,10 @@ func (c *Ctx) Get(key string) int {
 }
 
 func (c *Ctx) HarnessError(msg string) {
+	if c.ForwardHarness != nil {
+		c.ForwardHarness(msg)
+		return
+	}
 	c.mu.Lock()
 	defer c.mu.Unlock()
 	c.harnessErr = append(c.harnessErr, msg)
@@ -165,6 +177,10 @@ func (c *Ctx) HarnessError(msg string) {
 // `vcheck replay` can re-execute without the explorer.
 // Returns true if the violation is new (not a known finding, first of its signature).
 func (c *Ctx) Report(sig, what string, replay interface{}) bool {
+	if c.Forward != nil {
+		c.Forward(sig, what, replay)
+		return false
+	}
 	c.mu.Lock()
 	defer c.mu.Unlock()
 	if c.Silent {
